@@ -32,8 +32,9 @@ fn decode(u: &mut Unstructured) -> arbitrary::Result<ChanCase> {
         nested.push(NestedOp { thread: u.int_in_range(0..=3)? % nt, at: u.int_in_range(1..=30)?, recv: u.int_in_range(0..=4)? == 0, solo: u.arbitrary()? });
     }
     let weak = u.int_in_range(0..=3)? != 0;
+    let drain = if u.int_in_range(0..=1)? == 0 { 255 } else { u.int_in_range(0..=4)? };
     let schedule: Vec<u8> = u.bytes(u.len().min(200))?.to_vec();
-    Ok(ChanCase { prefix, threads, nested, schedule, weak })
+    Ok(ChanCase { prefix, threads, nested, schedule, weak, drain })
 }
 
 fuzz_target!(|data: &[u8]| {
